@@ -251,3 +251,116 @@ func crowd(c *mon.Case, r *mon.Run, dir string, nLinks, nDamaged int, perDir int
 	}
 	wg.Wait()
 }
+
+// reflect: the attacker sends an endpoint's own frames back to it.  The
+// server's inline seed frame (frame 1 of its direction) is cut off the
+// handshake flight, the client's first burst (frames 1.. of the other
+// direction) is put in its place, and vice versa for the server as victim
+// (the client's burst is answered with the server's own first burst).  The
+// victim's peer has written nothing there, so the victim must deliver nothing
+// and report an error.
+func reflect(c *mon.Case, r *mon.Run, dir string, victim string, seed uint64) {
+	rng := mon.NewRand(seed)
+	b := o4.NewBridge(rng, 0)
+	sf, err := o4.ServerFactory(dir, b)
+	if err != nil {
+		c.Violation("setup/server-factory", err.Error(), nil)
+		return
+	}
+	cw, sw := memwire.Pair(memwire.Options{Keep: true})
+	c2s, s2c := cw.Out(), sw.Out()
+	first := true
+	hsLen := 0
+	var seedFrame []byte
+	s2c.SetRewrite(func(off int64, p []byte) []byte {
+		if first {
+			first = false
+			hsLen = len(p)
+			if len(p) > ref.SeedFrameLength {
+				seedFrame = append([]byte(nil), p[len(p)-ref.SeedFrameLength:]...)
+			}
+			if victim == "client" && len(p) > ref.SeedFrameLength {
+				return p[:len(p)-ref.SeedFrameLength] // the response without the seed frame behind it
+			}
+		}
+		return p
+	})
+	var sc net.Conn
+	var serr error
+	done := make(chan struct{})
+	c.Go(func() { close(done) }, func() { sc, serr = sf.WrapConn(sw) })
+	cc, cerr := o4.DialReal(cw, b.ClientArgsCert())
+	<-done
+	if cerr != nil || serr != nil {
+		c.Violation("setup/handshake", fmt.Sprintf("reflect: %v / %v", cerr, serr), nil)
+		cw.Close()
+		sw.Close()
+		return
+	}
+	var delivered int64
+	var rerr error
+	var mu sync.Mutex
+	rd := make(chan struct{})
+	vconn, vhalf := cc, s2c // the victim reads from vhalf
+	if victim == "server" {
+		vconn, vhalf = sc, c2s
+	}
+	c.Go(func() { close(rd) }, func() {
+		buf := make([]byte, 4096)
+		for {
+			n, err := vconn.Read(buf)
+			mu.Lock()
+			delivered += int64(n)
+			if err != nil {
+				rerr = err
+			}
+			mu.Unlock()
+			if err != nil {
+				return
+			}
+		}
+	})
+	// the victim's own first burst: more than two full segments, so that the
+	// reflected stream extends far enough beyond the first forged frame
+	own := make([]byte, 3*ref.MaxSegment+rng.IntN(500))
+	for i := range own {
+		own[i] = byte(rng.IntN(256))
+	}
+	ohalf := c2s // the half the victim writes to
+	if victim == "server" {
+		ohalf = s2c
+	}
+	ohalf.Pause(true) // the victim's peer never sees it
+	before := ohalf.Written()
+	if _, err := vconn.Write(own); err != nil {
+		c.Violation("setup/write", err.Error(), nil)
+	}
+	synctest.Wait()
+	_, _, data := ohalf.Snapshot()
+	burst := append([]byte(nil), data[before:]...)
+	_ = hsLen
+	if victim == "server" {
+		// the server's frame 1 is the seed frame it sent behind its response
+		burst = append(append([]byte(nil), seedFrame...), burst...)
+	}
+	vhalf.Inject(burst)
+	synctest.Wait()
+	mu.Lock()
+	d, e := delivered, rerr
+	mu.Unlock()
+	r.Count("evaluations", 1)
+	r.Count("tamper_reflect-own-frames", 1)
+	wit := map[string]any{"victim": victim, "reflected_bytes": len(burst), "seed": fmt.Sprintf("%x", seed)}
+	if d > 0 {
+		c.Violation("forged-data-delivered/reflected-own-frames/"+victim, fmt.Sprintf("the %s delivered %d bytes to its application although its peer has written nothing: they are its own frames, sent back by the attacker (Read error so far: %v)", victim, d, e), wit)
+	} else if e == nil {
+		c.Violation("no-error-after-damage/reflected-own-frames/"+victim, fmt.Sprintf("%d bytes of the %s's own frames were sent back to it; it is quiescent without an error", len(burst), victim), wit)
+	} else {
+		r.Count("error_surfaced", 1)
+		r.Count("reflections_rejected", 1)
+	}
+	r.Distinct("nontrivial", fmt.Sprintf("reflect/%s/%x", victim, seed))
+	cw.Close()
+	sw.Close()
+	<-rd
+}
